@@ -7,11 +7,12 @@ import json
 import agentlib as A
 
 RX = [(r'dtn://node/.*', 'deliver'), (r'dtn://far/.*', 'forward'), (r'dtn://frag/.*', 'forward'),
-      (r'dtn://lost/.*', 'forward'), (r'dtn://del/.*', 'delete')]
+      (r'dtn://lost/.*', 'forward'), (r'dtn://tiny/.*', 'forward'), (r'dtn://del/.*', 'delete')]
 FRAG_MTU = 150
-TX = [(r'dtn://far/.*', None), (r'dtn://frag/.*', FRAG_MTU), (r'dtn://rpt/.*', None), (r'dtn://node/.*', None)]
+TX = [(r'dtn://far/.*', None), (r'dtn://frag/.*', FRAG_MTU), (r'dtn://tiny/.*', 40), (r'dtn://rpt/.*', None),
+      (r'dtn://node/.*', None)]
 OUTCOMES = {'deliver': '//node/app', 'forward': '//far/x', 'fwdfrag': '//frag/x', 'delete': '//del/x',
-            'noroute': '//nowhere/x', 'fwdnotx': '//lost/x'}
+            'noroute': '//nowhere/x', 'fwdnotx': '//lost/x', 'fwdunsend': '//tiny/x'}
 RPTS = ['null', 'none', 'eid']
 RPT_EID = A.dtn('//rpt/')
 SRC = A.dtn('//src/')
@@ -83,7 +84,7 @@ def monitors(chk, case, obs):
     if left:
         occurred.add('forward')
     route_act = dict((('//node/app', 'deliver'), ('//far/x', 'forward'), ('//frag/x', 'forward'),
-                      ('//lost/x', 'forward'), ('//del/x', 'delete'))).get(OUTCOMES[case['outcome']])
+                      ('//lost/x', 'forward'), ('//tiny/x', 'forward'), ('//del/x', 'delete'))).get(OUTCOMES[case['outcome']])
     if route_act == 'delete' or (route_act == 'forward' and not left):
         occurred.add('delete')
     enabled = (not it['b'].get('rpt_none')) and p['rpt'] != 'none'
@@ -197,24 +198,23 @@ def run_cases(chk, cases):
 
 
 def d14_witness():
-    ''' the witness of C19_forward_not_deleted_counterexample (Props/C19.lean, d14Ctr) on the real agent:
-    deletion report requested, routed forward, transmit route whose MTU makes the fragment step consume it '''
-    return mk_case(A.F_DEL, 'eid', 'fwdfrag', ts=[700, 0], plen=400)
+    ''' the former D14 witness (Props/C19.lean, d14Ctr) on the real agent: deletion and forwarding reports
+    requested, routed forward, transmit route whose MTU makes the fragment step consume the bundle '''
+    return mk_case(A.F_DEL | A.F_FWD, 'eid', 'fwdfrag', ts=[700, 0], plen=400)
 
 
 def run(chk):
     chk.prove('DtnVerif.Props.C19')
     chk.cov['rule'] = ('all 2^5 report-flag sets x report-to {null, dtn:none, EID} x outcomes {deliver, forward, '
-                       'forward with fragmentation (route MTU 150), delete route, no route, forward without TX '
-                       'route}; thorough adds CRC types, creation time 0, extra blocks, dwell time between '
+                       'forward with fragmentation (route MTU 150), forward where fragmentation is impossible (route MTU '
+                       '40), delete route, no route, forward without TX route}; thorough adds CRC types, creation time 0, extra blocks, dwell time between '
                        'reception and forwarding; each case through the real Agent and the Lean model (all CL '
                        'octets compared), monitors on the decoded administrative records')
     chk.assumptions += [
         'the security-failure outcome needs a BPSec configuration and is exercised by C12, not here',
-        'fragment creation is a parameter of the model (none / consumed / raises); for a bundle larger than the '
-        'route MTU the harness supplies "raises": at this commit Fragment._create always raises for received '
-        '(dissected) bundles and the bundle leaves whole, so D14 (C19_forward_not_deleted_counterexample, outcome '
-        '"consumed") cannot be exhibited on the implementation through the receive path',
+        'fragment creation is a parameter of the model (none / consumed / raises / unsendable); the harness '
+        'decides it independently of the implementation from the size of the model\'s own unfragmented output versus '
+        'the route MTU (agentlib.model_answers); fragment octets themselves are C05\'s subject and are not compared',
         'CRC values of transmitted blocks are parameters of the model (taken from the captured octets); their '
         'validity is checked by the independent bitwise CRC-16/X.25 / CRC-32C monitor',
     ]
